@@ -19,6 +19,10 @@ func (lk AATLoopkup0) Class(g GlyphID) (uint16, bool) {
 func (lk AATLoopkup2) Class(g GlyphID) (uint16, bool) {
 	// 'adapted' from golang/x/image/font/sfnt
 	c := lk.Records
+	// the termination unit (0xFFFF, 0xFFFF) is not data : the deleted glyph 0xFFFF must not match it
+	if n := len(c); n != 0 && c[n-1].FirstGlyph == 0xFFFF && c[n-1].LastGlyph == 0xFFFF {
+		c = c[:n-1]
+	}
 	num := len(c)
 	if num == 0 {
 		return 0, false
@@ -69,8 +73,13 @@ func (lk AATLoopkup4) Class(g GlyphID) (uint16, bool) {
 }
 
 func (lk AATLoopkup6) Class(g GlyphID) (uint16, bool) {
-	// binary search
-	for i, j := 0, len(lk.Records); i < j; {
+	// binary search, without the termination unit (0xFFFF), which is not data :
+	// the deleted glyph 0xFFFF must not match it
+	n := len(lk.Records)
+	if n != 0 && lk.Records[n-1].Glyph == 0xFFFF {
+		n--
+	}
+	for i, j := 0, n; i < j; {
 		h := i + (j-i)/2
 		entry := lk.Records[h]
 		if g < entry.Glyph {
@@ -108,6 +117,10 @@ func (lk AATLoopkupExt0) Class(g GlyphID) (uint32, bool) {
 func (lk AATLoopkupExt2) Class(g GlyphID) (uint32, bool) {
 	// 'adapted' from golang/x/image/font/sfnt
 	c := lk.Records
+	// the termination unit (0xFFFF, 0xFFFF) is not data : the deleted glyph 0xFFFF must not match it
+	if n := len(c); n != 0 && c[n-1].FirstGlyph == 0xFFFF && c[n-1].LastGlyph == 0xFFFF {
+		c = c[:n-1]
+	}
 	num := len(c)
 	if num == 0 {
 		return 0, false
@@ -158,8 +171,13 @@ func (lk AATLoopkupExt4) Class(g GlyphID) (uint32, bool) {
 }
 
 func (lk AATLoopkupExt6) Class(g GlyphID) (uint32, bool) {
-	// binary search
-	for i, j := 0, len(lk.Records); i < j; {
+	// binary search, without the termination unit (0xFFFF), which is not data :
+	// the deleted glyph 0xFFFF must not match it
+	n := len(lk.Records)
+	if n != 0 && lk.Records[n-1].Glyph == 0xFFFF {
+		n--
+	}
+	for i, j := 0, n; i < j; {
 		h := i + (j-i)/2
 		entry := lk.Records[h]
 		if g < entry.Glyph {
